@@ -1,0 +1,21 @@
+//go:build verif
+
+package queue
+
+// VerifCursor returns the in-memory write cursor of the queue below a FanOutQueue (data page index,
+// offset of the next message in it, index page index). Read-only; used by the C08 verification harness
+// as part of its canonical state (after SetAppendedSeq the cursor is not a function of the files).
+// Only compiled with -tags verif; add-only.
+func VerifCursor(fq FanOutQueue) (dataPageIndex int64, messageOffset int, indexPageIndex int64, ok bool) {
+	f, ok1 := fq.(*fanOutQueue)
+	if !ok1 {
+		return 0, 0, 0, false
+	}
+	q, ok2 := f.queue.(*queue)
+	if !ok2 {
+		return 0, 0, 0, false
+	}
+	q.rwMutex.RLock()
+	defer q.rwMutex.RUnlock()
+	return q.dataPageIndex, q.messageOffset, q.indexPageIndex, true
+}
